@@ -254,9 +254,8 @@ ListTypesOf(s) == {s.els[i].ty : i \in {j \in 1..Len(s.els) : IsList(s.els[j].ty
 
 Resolve(t) == IF t.k = "ref" THEN Tab[t.name] ELSE t
 
-Broken(name) ==
-    LET s == Tab[name]
-        els == IF s.k \in {"seq", "choice"} THEN s.els ELSE <<>>
+BrokenS(name, s) ==
+    LET els == IF s.k \in {"seq", "choice"} THEN s.els ELSE <<>>
         N == Len(els)
         items == IF IsList(s) THEN {s} ELSE ListTypesOf([els |-> els])
     IN    {<<name, els[i].name, "ctx_range">> : i \in {j \in 1..N : els[j].ctx # NoCtx /\ els[j].ctx \notin 0..MaxCtx}}
@@ -282,6 +281,7 @@ Broken(name) ==
                t \in {x \in items : LET it == Resolve(x.of) IN
                                     it.k = "seq" /\ SkippableTail(it.els, Len(it.els)) \cap FirstTy(it) # {}}}
 
+Broken(name) == BrokenS(name, Tab[name])
 WellFormed(name) == Broken(name) = {}
 
 \* ======================================== tag framing (simple cases) ===========================
